@@ -16,6 +16,8 @@ def specs_for(chk, n, profile):
         dim = dims[i % len(dims)]
         opts = {'squeeze': rng.random() < .15, 'two_inputs': profile.get('two_inputs', True) and rng.random() < .15,
                 'tcat': profile.get('tcat', True)}
+        if i % 8 == 5 and profile.get('two_outputs', True):
+            opts['two_outputs'] = True
         if excl_hint(profile, i):
             opts['cat_tail'] = True
         if profile.get('excl') and i % 7 == 3:
